@@ -208,6 +208,33 @@ fn main() {
         let mut g = Gen { next: h * 1000, live: vec![] };
         // the scripted history
         let mut items: Vec<(Value, Value)> = (0..n_events).map(|_| (g.event(&mut rng), g.env(&mut rng, with_orders, false))).collect();
+        // a deliberate burst in most histories: open -> confirmed open -> cancel sent -> a second open
+        // report with the SAME exchange timestamp and other content while the cancel is in flight ->
+        // cancel rejected. The engine holds a cancel-in-flight marker here and the replica does not, so
+        // the two take different arms of the order manager for the same audit record.
+        if h % 4 != 3 {
+            let at = rng.random_range(0..=items.len());
+            let o = g.opens(&mut rng, 1);
+            let (inst, cid, side, qty) = g.live.last().cloned().unwrap();
+            let ex = world2::EX_OF[inst as usize] as i64;
+            let nf = engine_gen::no_filter;
+            let quiet = |g: &mut Gen, rng: &mut StdRng| g.env(rng, false, false);
+            let mut o_fixed = o.clone();
+            o_fixed[0]["ex"] = json!(ex);
+            let mut burst = vec![
+                (engine_gen::ev("SendOpens", 0, 0, "", "", "-", 0, false, "-", o_fixed, nf()), quiet(&mut g, &mut rng)),
+                (engine_gen::ev("OrderSnap", ex, inst, &cid, "Open", &side, qty, false, "-", vec![], nf()), quiet(&mut g, &mut rng)),
+                (engine_gen::ev("SendCancels", 0, 0, "", "", "-", 0, false, "-",
+                                vec![json!({"k": "cancel", "ex": ex, "inst": inst, "cid": cid, "side": "-", "qty": 0, "hasId": true})], nf()), quiet(&mut g, &mut rng)),
+            ];
+            let mut tie = engine_gen::ev("OrderSnap", ex, inst, &cid, "Open", &side, qty, false, "-", vec![], nf());
+            tie["tie"] = json!(true);
+            burst.push((tie, quiet(&mut g, &mut rng)));
+            burst.push((engine_gen::ev("CancelResp", ex, inst, &cid, "", "-", 0, false, "-", vec![], nf()), quiet(&mut g, &mut rng)));
+            for (k, it) in burst.into_iter().enumerate() {
+                items.insert(at + k, it);
+            }
+        }
         match ending {
             "shutdown" => items.push((engine_gen::ev("Shutdown", 0, 0, "", "", "-", 0, false, "-", vec![], engine_gen::no_filter()), g.env(&mut rng, false, false))),
             "fatal" => {
